@@ -297,7 +297,11 @@ func NewResponsePacket(cookies [][]byte, key []byte, uniqueid []byte) (pkt Packe
 	uid.ID = uniqueid
 	pkt.UniqueID = uid
 
-	lencookies := len(cookies) * (4 + len(cookies[0]))
+	lencookies := 0
+	for _, c := range cookies {
+		// a cookie field is padded to a multiple of four bytes
+		lencookies += 4 + (len(c)+3) & ^3
+	}
 	buf := make([]byte, lencookies)
 	var err error
 	pos := 0
